@@ -17,6 +17,9 @@ import EaselModel.Gencode.ReadComplete
 import EaselModel.Alphabet.Iupac
 import EaselModel.Gencode.WholeLemmas
 import EaselModel.Gencode.SixFrames
+import EaselModel.Gencode.Numbering
+import EaselModel.Gencode.Total
+import EaselModel.Gencode.Dump
 /-! # C17 — property theorems (statements + glue only; lemmas live in Gencode/*.lean)
 
 `T.tables` = every row of `esl_transl_tables[]` dumped from the code under check on this run; `Ncbi.pinned` = the
@@ -358,6 +361,67 @@ example : (T.tables.head?.map fun t =>
 example : (decodeDigicodon A.dna 14, decodeDigicodon A.dna 303, decodeDigicodon A.dna 304, decodeDigicodon A.dna (-1)) =
     (some [65, 84, 71], some [0, 84, 84], none, none) := by decide +kernel
 
+/-! ## `GetTranslation` / `IsInitiator` on ANY three byte codes; `DumpAltCodeTable` -/
+
+/-- `esl_gencode_GetTranslation` IS TOTAL ON EXACTLY THESE INPUTS, WITH THIS RESULT — for ANY table, any alphabet and ANY three
+    codes (every value an `ESL_DSQ` can hold: residues, gap, nonresidue `*`, missing data `~`, codes ≥ Kp, the sentinel 255),
+    in the order in which the C loop dereferences `degen[]`: three canonical residues ⇒ the table entry; else a first code ≥ Kp
+    ⇒ read outside `degen[]`; else a first code that stands for no residue (gap / `*` / `~`) ⇒ −1 at once (stored in an
+    `ESL_DSQ`: 255), the two other codes are never looked at; else the same for the second, then for the third code; else the
+    specification `specTranslation` (shared amino acid, X, or −1 for an empty third code). -/
+theorem translation_total (nt aa : Alphabet) (g : Gencode) (hn : NtOK nt) (hg : CodeOK g) (a b c : Nat) :
+    getTranslation nt aa g a b c =
+      if allCanonical nt a b c = true then some (Int.ofNat (g.basic.getD (16 * a + 4 * b + c) 0))
+      else if nt.Kp ≤ a then none else if rowEmpty nt a = true then some (-1)
+      else if nt.Kp ≤ b then none else if rowEmpty nt b = true then some (-1)
+      else if nt.Kp ≤ c then none else some (specTranslation nt aa g a b c) :=
+  getTranslation_total nt aa g hn hg a b c
+
+/-- the same for `esl_gencode_IsInitiator`: FALSE as soon as a code stands for no residue; a read outside `degen[]` exactly
+    when a code ≥ Kp is reached before that (for three codes < Kp: `initiator_spec`) -/
+theorem initiator_total (nt : Alphabet) (g : Gencode) (hn : NtOK nt) (hg : CodeOK g) (a b c : Nat)
+    (hcan : allCanonical nt a b c = false) :
+    (nt.Kp ≤ a → isInitiator nt g a b c = none) ∧
+    (a < nt.Kp → rowEmpty nt a = true → isInitiator nt g a b c = some 0) ∧
+    (a < nt.Kp → rowEmpty nt a = false → nt.Kp ≤ b → isInitiator nt g a b c = none) ∧
+    (a < nt.Kp → rowEmpty nt a = false → b < nt.Kp → rowEmpty nt b = true → isInitiator nt g a b c = some 0) ∧
+    (a < nt.Kp → rowEmpty nt a = false → b < nt.Kp → rowEmpty nt b = false → nt.Kp ≤ c → isInitiator nt g a b c = none) :=
+  isInitiator_total nt g hn hg a b c hcan
+
+/-- in the dumped DNA and RNA alphabets the codes that stand for no residue are exactly gap (4), nonresidue `*` (16) and
+    missing data `~` (17); Kp = 18: of the 32 five-bit codes, 18..31 are outside the alphabet -/
+theorem empty_rows :
+    ∀ nt ∈ [A.dna, A.rna], nt.Kp = 18 ∧ ∀ a, a < 18 → (rowEmpty nt a = true ↔ (a = 4 ∨ a = 16 ∨ a = 17)) := by decide +kernel
+
+-- all 32³ five-bit triplets × the first table: the theorem's right-hand side computed on the regenerated tables agrees with the
+-- model on a sample reaching every branch (A, gap, N, 18, 31 in each position)
+example : (T.tables.head?.map fun t => ([0, 4, 15, 18, 31].flatMap fun a => [0, 4, 15, 18, 31].flatMap fun b => [0, 4, 15, 18, 31].map fun c =>
+    getTranslation A.dna A.amino (codeOf t) a b c)) =
+  some [some 8, some (-1), some 26, none, none,  some (-1), some (-1), some (-1), some (-1), some (-1),
+        some 26, some (-1), some 26, none, none,  none, none, none, none, none,  none, none, none, none, none,
+        some (-1), some (-1), some (-1), some (-1), some (-1),  some (-1), some (-1), some (-1), some (-1), some (-1),
+        some (-1), some (-1), some (-1), some (-1), some (-1),  some (-1), some (-1), some (-1), some (-1), some (-1),
+        some (-1), some (-1), some (-1), some (-1), some (-1),
+        some 26, some (-1), some 26, none, none,  some (-1), some (-1), some (-1), some (-1), some (-1),
+        some 26, some (-1), some 26, none, none,  none, none, none, none, none,  none, none, none, none, none,
+        none, none, none, none, none,  none, none, none, none, none,  none, none, none, none, none,  none, none, none, none, none,
+        none, none, none, none, none,
+        none, none, none, none, none,  none, none, none, none, none,  none, none, none, none, none,  none, none, none, none, none,
+        none, none, none, none, none] := by decide +kernel
+
+/-- `esl_gencode_DumpAltCodeTable` AS A FUNCTION OF `esl_transl_tables[]`: for ANY table array the text is the two header lines
+    followed by one line `"%3d %s"` (id right-aligned in three columns, blank, description) per row, in array order, each
+    terminated by a newline; for the rows of the tree (regenerated): ids are 1..99 and print as `"  d"` / `" dd"`, no
+    description contains a newline — one line per offered table, and by `table_ids` the ids listed are exactly those
+    `esl_gencode_Set` accepts -/
+theorem alt_code_table_spec :
+    (∀ tabs : List RawTable, dumpAltCodeTable tabs = String.join ((dumpLines tabs).map (· ++ "\n"))) ∧
+    (∀ tabs : List RawTable, dumpLines tabs =
+      ["id  description", "--- -----------------------------------"] ++ tabs.map fun t => pad3 t.id ++ " " ++ t.desc) ∧
+    (∀ t ∈ T.tables, 0 < t.id ∧ t.id < 100 ∧ pad3 t.id = (if t.id < 10 then "  " else " ") ++ toString t.id ∧
+      (t.desc.toList.all fun ch => ch ≠ '\n') = true) :=
+  ⟨dump_eq_lines, fun _ => rfl, dump_rows_wellformed⟩
+
 /-! ## whole sequences: both strands, `esl-translate` full-length and windowed (`-W`) main loops, option combinations -/
 
 /-- THE REVERSE STRAND, WINDOWS DELIVERED IN REVERSE ORDER: `esl_sqio_ReadWindow` with a negative window size walks the TOP strand
@@ -443,6 +507,37 @@ theorem strand_leaves_idle (nt aa : Alphabet) (g : Gencode) (cfg : Cfg) (hn : Nt
     ∃ w', runStrand nt aa g cfg w0 isRev d [d.length] = some w' ∧ Idle w'.c ∧ w'.c.frame < 3 := by
   obtain ⟨w', h1, _, h3, h4⟩ := runStrand_other nt aa g cfg hn hg w0 isRev d hv
   exact ⟨w', h1, h3, h4⟩
+
+/-- A WHOLE FILE, NUMBERING: over all sequences of the file and both strands (whatever the options) the main loop does not fault and
+    the records it adds are numbered `orfcount + 1, orfcount + 2, …` in emission order without gap or repeat — from a fresh work
+    state: orf1, orf2, …, orf<n> with n the final counter (`Numbered`: newest first `n0 + len, …, n0 + 1`) -/
+theorem file_numbering (nt aa : Alphabet) (g : Gencode) (o : Opts) (hn : NtOK nt) (hg : CodeOK g)
+    (hc : ∀ x, x < nt.Kp → (nt.complement.getD []).getD x 255 < nt.Kp) (seqs : List (List Nat)) (w0 : Work)
+    (hv : ∀ d ∈ seqs, ∀ x ∈ d, x < nt.Kp) :
+    ∃ w' news, translateFile (bySequence nt aa g (workstateCreate o)) w0 seqs = some w' ∧
+      w'.c.out.map (·.num) = news ++ w0.c.out.map (·.num) ∧ w'.c.orfcount = w0.c.orfcount + news.length ∧
+      Numbered w0.c.orfcount news :=
+  translateFile_numbering nt aa g (workstateCreate o) hn hg hc seqs w0 hv
+
+/-- A WHOLE FILE, `-W`: for every file of valid sequences of ANY lengths (shorter than a codon included), every window size other
+    than 1, every genetic code and option combination, starting from the fresh work state: `esl-translate -W` ends with the same
+    ORF records in the same order under the same numbers as `esl-translate` -/
+theorem windowed_file_eq_full_length (nt aa : Alphabet) (g : Gencode) (o : Opts) (W : Nat) (hW : W ≠ 1) (hn : NtOK nt)
+    (hg : CodeOK g) (hc : ∀ x, x < nt.Kp → (nt.complement.getD []).getD x 255 < nt.Kp) (seqs : List (List Nat))
+    (hv : ∀ d ∈ seqs, ∀ x ∈ d, x < nt.Kp) :
+    ∃ r r', translateFile (byWindows nt aa g (workstateCreate o) W) {} seqs = some r ∧
+      translateFile (bySequence nt aa g (workstateCreate o)) {} seqs = some r' ∧ r.c.out = r'.c.out ∧ r.c.orfcount = r'.c.orfcount :=
+  windowed_file nt aa g (workstateCreate o) W hW hn hg hc seqs {} {} ⟨rfl, rfl⟩ ⟨rfl, rfl, rfl⟩ (by decide) ⟨rfl, rfl, rfl⟩
+    (by decide) hv
+
+-- non-vacuity: a file of three sequences (one shorter than a codon) through both loops, window size 4
+example : (T.tables.head?.map fun t =>
+    let o : Opts := ⟨false, false, false, true, 1⟩
+    let g := codeOf t
+    let seqs := [[0,3,2,0,0,0,3,0,0,1], [0,3], [1,3,2,1,1,1,3,2,0,0]]
+    ((translateFile (byWindows A.dna A.amino g (workstateCreate o) 4) {} seqs).map fun w => w.c.out.map (·.num),
+     (translateFile (bySequence A.dna A.amino g (workstateCreate o)) {} seqs).map fun w => w.c.out.map (·.num))) =
+    some (some [3, 2, 1], some [3, 2, 1]) := by decide +kernel
 
 example : Idle ({} : Work).c ∧ ({} : Work).c.frame < 3 := ⟨⟨rfl, rfl, rfl⟩, by decide⟩
 
